@@ -254,11 +254,30 @@ var branchPanel = []*model.Branch{
 
 // ---- extension lists ------------------------------------------------------------------------------------------------
 
-var extPool = []string{".go", ".md", "Makefile", "", "o", ".tar.gz", ".gz", "a", ".", "e", "go", "d"}
+var extPool = []string{".go", ".md", "Makefile", "", "o", ".tar.gz", ".gz", "a", ".", "e", "go", "d", ".d.ts", "..", ".min.js", ".txt", ".c", ".h", ".yaml", ".json"}
+
+// extSources: strings from which extension values are cut: the node names and the node paths (so that values such as
+// "docs/README" or "/README" — a path tail across a separator — occur; they match no NAME and must change nothing).
+func extSources(f model.Forest) []string {
+	out := f.Names()
+	model.Merge(f).Walk(func(_ int, chain []*model.T) {
+		if len(chain) >= 2 {
+			var parts []string
+			for _, c := range chain {
+				parts = append(parts, c.Name)
+			}
+			out = append(out, strings.Join(parts, "/"))
+		}
+	})
+	return out
+}
 
 func genExts(names []string) *rapid.Generator[[]string] {
 	return rapid.Custom(func(t *rapid.T) []string {
 		n := rapid.IntRange(0, 4).Draw(t, "nexts")
+		if rapid.IntRange(0, 5).Draw(t, "manyExts") == 0 {
+			n = rapid.IntRange(8, 12).Draw(t, "nextsMany") // a long list (an implementation may index long lists differently)
+		}
 		var out []string
 		for i := 0; i < n; i++ {
 			if len(names) > 0 && rapid.IntRange(0, 2).Draw(t, "fromname") == 0 {
